@@ -170,6 +170,7 @@ def h_desired(env, ops, n, outcome, init, func_ops=None, control_kind=None, cana
         env.check_raises(lambda: b.simulate(circ, return_statevector=True, desired_meas_result=outcome, **kw),
                          f"conditioning on the impossible outcome string {outcome} is refused")
         return
+    n_sims = 1
     if init and not canary and any(op[0] in ("cm", "cmf") for op in ops):
         # the same circuit object simulated before from ANOTHER initial state for the same outcome string: what is recorded
         # afterwards must belong to the latest run
@@ -177,8 +178,12 @@ def h_desired(env, ops, n, outcome, init, func_ops=None, control_kind=None, cana
         if chi is not None:
             try:
                 b.simulate(circ, return_statevector=True, desired_meas_result=outcome, initial_statevector=as_array(env, chi))
+                n_sims = 2
             except ValueError:
                 pass
+            if control_kind == "class":
+                n_sims = cm.finalized + 1       # whatever the first run did, the run under test adds exactly one finalize()
+                del cm.seen[:]
     freqs, sv = b.simulate(circ, return_statevector=True, desired_meas_result=outcome, **kw)
     if canary:
         phi = [phi[0]] + [-x for x in phi[1:]]
@@ -206,7 +211,7 @@ def h_desired(env, ops, n, outcome, init, func_ops=None, control_kind=None, cana
     if control_kind == "class":
         # the classical-control object is told that the run is over exactly once (stateful controllers reset there), and was
         # consulted once per CMEASURE of the selected branch, with the requested outcomes in order
-        env.check_same(cm.finalized, 1, "ClassicalControl.finalize() is called once per exact simulation")
+        env.check_same(cm.finalized, n_sims, "ClassicalControl.finalize() is called once per exact simulation")
         n_cm = sum(1 for a in applied if a[0] == "CMEASURE")
         env.check_true(len(cm.seen) >= 1 and len(cm.seen) <= n_cm, "ClassicalControl.return_gates() consulted once per function-controlled CMEASURE",
                        detail=f"{cm.seen} for {n_cm} CMEASURE gates")
